@@ -16,3 +16,12 @@ open NLV.C08
 #print axioms NLV.C08.binv_reachable
 #print axioms NLV.C08.end_starts_new_lifetime
 #print axioms NLV.C08.close_ends_every_key
+#print axioms NLV.C08.dinv_init
+#print axioms NLV.C08.dinv_cstep
+#print axioms NLV.C08.dinv_csteps
+#print axioms NLV.C08.close_is_closeSteps
+#print axioms NLV.C08.left_dict_closed
+#print axioms NLV.C08.closed_stays_closed
+#print axioms NLV.C08.close_in_flight_ends_every_key
+#print axioms NLV.C08.close_in_flight_ends_later_keys
+#print axioms NLV.C08.closeStep_empty
